@@ -279,7 +279,7 @@ PROPS = {
             "the caller named in the model is contract.CallerAddress and the signer is tx.origin, as the EVM supplies them",
             "grant expiry is handled by the authz keeper (an expired grant reads as absent)",
         ],
-        "level_text": "Machine-checked proofs (Lean 4) over a model of the staking precompile's authority logic: whoever's coins or stake a successful call moves is the signer or the immediate caller; a third account named as delegator is refused; when the caller is not the signer success implies a live grant whose allow-list contains the validator and whose limit covers the amount; a limited grant is reduced by exactly the amount (deleted at zero), an unlimited one is unchanged; a validator outside the allow-list is refused for limited and unlimited grants; and for every sequence of approve / increase / decrease / revoke / spend the amounts spent since the last approval plus the remaining limit equal what was granted (never overspent). Tied to the code by an exact differential run of real signed transactions (direct and through a contract) against the compiled model.",
+        "level_text": "Machine-checked proofs (Lean 4) over a model of the staking precompile's authority logic: whoever's coins or stake a successful call moves is the signer or the immediate caller; a third account named as delegator is refused; when the caller is not the signer success implies a live grant whose allow-list contains the validator and whose limit covers the amount; a limited grant is reduced by exactly the amount (deleted at zero), an unlimited one is unchanged; a validator outside the allow-list is refused for limited and unlimited grants; and for every sequence of approve / increase / decrease / revoke / spend the amounts spent since the last approval plus the remaining limit equal what was granted (never overspent); a call that fails has executed no message and changed no grant, because the authorization accepts before the message runs — the order is a regenerated fact over the four methods, and a kernel-checked counterexample shows what the older order (Accept after the message, repaired by 5f6ffb7) left behind for a contract that ignores the failure. Tied to the code by an exact differential run of real signed transactions (direct and through a contract) against the compiled model.",
         "level_note": "Trusted: Lean kernel; correspondence harness; authz/staking internals modelled; only the staking family is modelled.",
         "technique": "Lean 4 proofs of the decision logic + running-allowance invariant by induction over op sequences + differential correspondence on real transactions",
         "explanation": "Identity matrix (signer/contract as caller × signer/contract/third party as delegator) × grant states (absent, limited at limit−1/limit/limit+1, unlimited, revoked, validators created after the approval) exercised with real transactions; verdict and resulting grant compared with the model; independent monitors for third-party effects, coverage and exact reduction.",
